@@ -3,7 +3,7 @@
 From Coq Require Import List Arith Bool ZArith Ring.
 From PV Require Import Base.Index Base.Perm Base.Sum Np.Array Model.Sparse Model.Repr Model.C07Ops Model.C01Conv
   Model.C01Unique Model.C01Coo Model.C01Ttm Model.C01W3 Model.C01W4 Model.C01W5 Model.C01W5Sum Proofs.C01Kruskal Proofs.C01W4 Proofs.C01W5 Proofs.C01W5Sum.
-From PV Require Np.NpZ Np.NpZ2 Gen.GenKernels Proofs.C01GenKr Proofs.C01W5Gen.
+From PV Require Np.NpZ Np.NpZ2 Gen.GenKernels Gen.GenUtils Model.C02Modes Proofs.C02ModesProofs Proofs.C01GenKr Proofs.C01W5Gen Proofs.C01W5Req.
 Import ListNotations.
 
 Section C01w5.
@@ -41,6 +41,24 @@ Theorem C01_ttm_mode_list : forall spdot, spdot_spec v0 vadd vmul spdot ->
   exists h', ttm_chain v0 vadd vmul isz spdot h ps = Some h' /\ wf_holder isz h' /\
     holder_full v0 h' = ttm_pairs v0 vadd vmul (holder_full v0 h) ps.
 Proof. exact (ttm_chain_correct V v0 v1 vadd vmul vsub vopp isz Vring isz_spec). Qed.
+
+(* ... AS CALLED: the request (dims in any order | exclude_dims | neither; one matrix per designated mode or one per tensor mode) is
+   resolved by the GENERATED tt_dimscheck (Gen/GenUtils.v; alignment lemma of C02 instantiated with ndarray / coo multiplicands):
+   it answers the designated modes ascending and the positions of the matrices the caller attached to them, and the loop run on
+   exactly these pairs densifies to the sequence of mode products. An edit of tt_dimscheck in /repo breaks this proof. *)
+Theorem C01_ttm_as_called : forall spdot, spdot_spec v0 vadd vmul spdot ->
+  forall (h : holder V) dims excl (ms : list (factor V)), wf_holder isz h ->
+  let N := Z.of_nat (length (holder_shape h)) in
+  C02ModesProofs.admissible N dims excl (NpZ.zlen ms) ->
+  let d := C02Modes.req_modes N dims excl in
+  exists vidx, GenUtils.tt_dimscheck N (Some (NpZ.zlen ms)) dims excl = NpZ.Ok (NpZ.np_sort d, Some vidx) /\
+    let ps := combine (C02Modes.nats (NpZ.np_sort d)) (map (NpZ.znth (C01W5Req.fdflt V) ms) vidx) in
+    ps = combine (C02Modes.nats (NpZ.np_sort d))
+                 (map (C02Modes.attach (C01W5Req.fdflt V) d ms) (C02Modes.nats (NpZ.np_sort d))) /\
+    (chain_ok V v0 vadd (holder_shape h) ps ->
+     exists h', ttm_chain v0 vadd vmul isz spdot h ps = Some h' /\ wf_holder isz h' /\
+       holder_full v0 h' = ttm_pairs v0 vadd vmul (holder_full v0 h) ps).
+Proof. exact (C01W5Req.ttm_as_called V v0 v1 vadd vmul vsub vopp isz Vring isz_spec). Qed.
 
 (* ttensor.full() for a dense OR sparse core and factor matrices that are ndarrays OR scipy coo matrices (every coo factor
    well-formed with as many columns as the core has cells in its mode): the code's route — core.ttm(factor list), to_tensor()
@@ -93,6 +111,7 @@ Print Assumptions C01_kruskal_generated_any_split.
 Print Assumptions C01_spdot_ref_spec.
 Print Assumptions C01_sptensor_ttm_coo.
 Print Assumptions C01_ttm_mode_list.
+Print Assumptions C01_ttm_as_called.
 Print Assumptions C01_tucker_coo_factors.
 Print Assumptions C01_sum_history.
 Print Assumptions C01_sum_history_shape_guard.
@@ -132,5 +151,8 @@ Example C01_example_w5 :
     = Some (mkDense [2; 2] [-7; -19; -2; -2]%Z) /\
   hist_val 0%Z 1%Z Z.add Z.mul Z.opp (den_sum 0%Z Z.add (map (part4_den 0%Z 1%Z Z.add Z.mul) [QD D; QS Sp]) [1; 0])
     [OAdd (QK Kk); ONeg; OAdd Tt; OCopy] [1; 0] = (-19)%Z /\
-  sop_step Z.opp [QD D] (OAdd (QS (mkSp [2; 3] [] []))) = None.
+  sop_step Z.opp [QD D] (OAdd (QS (mkSp [2; 3] [] []))) = None /\
+  (* the generated tt_dimscheck on the request dims = [1, 0] with two matrices: modes ascending, matrices swapped *)
+  GenUtils.tt_dimscheck 2%Z (Some 2%Z) (Some [1; 0]%Z) None = NpZ.Ok ([0; 1]%Z, Some [1; 0]%Z) /\
+  combine (C02Modes.nats [0; 1]%Z) (map (NpZ.znth (C01W5Req.fdflt Z) [FDense U; FCoo C]) [1; 0]%Z) = [(0, FCoo C); (1, FDense U)].
 Proof. repeat split; vm_compute; reflexivity. Qed.
